@@ -186,12 +186,12 @@ class Check:
             if o.nontrivial and o.verdict in ("PASS", "VIOLATION"):
                 distinct.add((o.rule, o.site, json.dumps(o.config, sort_keys=True, default=str)))
         samples = []
-        seen_rules = set()
+        per_rule = {}
         for o in obls:
-            if o.rule not in seen_rules or o.verdict != "PASS":
-                seen_rules.add(o.rule)
+            if per_rule.get(o.rule, 0) < 4 or o.verdict != "PASS":
+                per_rule[o.rule] = per_rule.get(o.rule, 0) + 1
                 samples.append(o.as_dict())
-            if len(samples) >= 40:
+            if len(samples) >= 60:
                 break
         digests = {}
         for rel, src in sorted(self.files.items()):
